@@ -1208,7 +1208,7 @@ class Conn:
 
 
 @contextlib.contextmanager
-def open_transport(kind: str, proto: type, impl: Any, **http_kw: Any):  # type: ignore[no-untyped-def]
+def open_transport(kind: str, proto: type, impl: Any, server: Any = None, **http_kw: Any):  # type: ignore[no-untyped-def]
     """Yield a ``Conn`` for ``proto`` served by ``impl`` over ``kind`` (all in-process; no thread outlives it).
 
     For the socket-like transports the server runs ``RpcServer.serve`` on a thread.  If an exception escapes
@@ -1224,7 +1224,7 @@ def open_transport(kind: str, proto: type, impl: Any, **http_kw: Any):  # type: 
         from vgi_rpc.http import http_connect
         from vgi_rpc.http._testing import make_sync_client
 
-        client = make_sync_client(RpcServer(proto, impl), token_key=b"k" * 32, **http_kw)
+        client = make_sync_client(server or RpcServer(proto, impl), token_key=b"k" * 32, **http_kw)
         try:
             with http_connect(proto, client=client) as proxy:
                 yield Conn(proxy, crashed)
@@ -1251,7 +1251,7 @@ def open_transport(kind: str, proto: type, impl: Any, **http_kw: Any):  # type: 
         ct, st_ = ShmPipeTransport(cp, shm), ShmPipeTransport(sp, shm)
     else:
         raise ValueError(kind)
-    server = RpcServer(proto, impl)
+    server = server or RpcServer(proto, impl)
 
     def _serve() -> None:
         try:
